@@ -342,7 +342,9 @@ func (s *MultiCIDRSet) getIndexForIP(ip net.IP) (int, error) {
 		bigIP = bigIP.Xor(bigIP, big.NewInt(0).SetBytes(ip))
 		cidrIndexBig := bigIP.Rsh(bigIP, uint(net.IPv6len*8-s.NodeMaskSize))
 		cidrIndex := cidrIndexBig.Uint64()
-		if cidrIndex >= uint64(s.MaxCIDRs) {
+		// Uint64() is undefined when the value does not fit, the high bits
+		// must take part in the range check.
+		if !cidrIndexBig.IsUint64() || cidrIndex >= uint64(s.MaxCIDRs) {
 			return 0, fmt.Errorf("CIDR: %v/%v is out of the range of CIDR allocator", ip, s.NodeMaskSize)
 		}
 		return int(cidrIndex), nil
